@@ -139,6 +139,8 @@ static int apply(objbuf *obj, const hop *h, int hl, int check, int *pa, int *ps,
                 if (l1 != l2 || memcmp(k1, k2, l1)) { snprintf(why, whycap, "copy differs from its original (a=%d s=%d)", a, s); bad = 1; }
                 if (l1 != l3 || memcmp(k1, k3, l1)) { snprintf(why, whycap, "copying modified the original (a=%d s=%d)", a, s); bad = 1; }
             }
+            /* a copy onto itself (destination and source are the same valid object) leaves it as it is */
+            { uint8_t k4[160]; M->copy(&c2, &c2); int l4 = M->canon(&c2, k4); if (last && (l4 != l1 || memcmp(k1, k4, l1))) { snprintf(why, whycap, "an object copied onto itself changed (a=%d s=%d)", a, s); bad = 1; } }
             M->freef(obj); *obj = c2; /* continue on the copy */
             break; }
         case OP_REINIT:
